@@ -125,8 +125,12 @@ func gen(max int) (toks []hx.JTok, d *spec.Doc, end int) {
 		case cNum:
 			// numbers: a menu of concrete doubles (formatting is strconv's, trusted);
 			// includes a value that 'g' renders with an exponent
-			f := []float64{2.5, -1, 1e6}[nd.Choice(1+2*nd.Tier())]
-			toks = append(toks, hx.JTok{Kind: hx.JNum, F: f})
+			// as spelled in the source: canonical, with a redundant fraction digit,
+			// with an exponent (thorough: more)
+			ni := nd.Choice(2 + 3*nd.Tier())
+			f := []float64{2.5, 1, 2.5, -1, 1e6}[ni]
+			spelled := []string{"2.50", "100e-2", "2.5", "-1.0", "1000000"}[ni]
+			toks = append(toks, hx.JTok{Kind: hx.JNum, F: f, S: spelled})
 			d.Add(parent, spec.Node{Kind: spec.Text, Value: strconv.FormatFloat(f, 'g', -1, 64)})
 			valueDone()
 		case cBool:
